@@ -368,25 +368,6 @@ func c10OnceKey(sc *c10Scenario, d string) string {
 	return ""
 }
 
-func c10Diff(a, b []string) []string {
-	in := map[string]int{}
-	for _, s := range b {
-		in[s]++
-	}
-	var out []string
-	for _, s := range a {
-		if in[s] > 0 {
-			in[s]--
-			continue
-		}
-		out = append(out, vTrunc(s, 220))
-	}
-	if len(out) == 0 {
-		return []string{"(nothing extra; order differs)"}
-	}
-	return out
-}
-
 // c10DiffClass classifies an isolation difference by the kinds involved.
 func c10DiffClass(got, want []string) string {
 	kinds := map[string]bool{}
